@@ -200,6 +200,10 @@ fn check(scn: &Scenario, rep: &mut Report, orders: &mut std::collections::HashSe
     orders.insert(vnet::fnv(format!("{:?}", out.log.iter().map(|l| (l.client, l.seq)).collect::<Vec<_>>()).as_bytes()));
     rep.add("handle_invocations", out.log.len() as u64);
     rep.add("in_handle_arrivals", out.applied.iter().filter(|a| a.2).count() as u64);
+    if scn.wake {
+        rep.count("wake_driven_cases");
+        rep.add("wake_driven_waker_firings", out.wakes);
+    }
     let mut stats = BTreeMap::new();
     let mut vs = fairness(scn, &out, &mut stats);
     // (c) nothing ready is left unserved at a quiescent point: the reference model's progress check
@@ -239,6 +243,7 @@ pub fn run(cfg: &Cfg) -> Report {
     for k in 0..n_small {
         let nconn = rng.range(2, 3);
         let mut b = build(&mut rng, nconn, k % 2 == 1);
+        b.scn.wake = k % 4 >= 2;
         // keep it small: at most 8 events
         let total_events: usize = b.chains.iter().map(|c| c.len()).sum();
         let total = count_interleavings(&b.chains.iter().map(|c| c.len()).collect::<Vec<_>>());
@@ -283,6 +288,7 @@ pub fn run(cfg: &Cfg) -> Report {
     for k in 0..n_rand {
         let nconn = rng.range(2, 5);
         let mut b = build_with(&mut rng, nconn, k % 3 == 0, k % 5 == 1, k % 7 == 2);
+        b.scn.wake = rng.chance(1, 3);
         let order = random_interleaving(&b.chains, &mut rng);
         b.scn.steps = order.into_iter().map(|e| Step { ev: e, mode: *rng.pick(&[Mode::Batch, Mode::InHandle, Mode::InHandle, Mode::Quiesce]) }).collect();
         check(&b.scn, &mut rep, &mut orders);
